@@ -31,14 +31,17 @@ func GetLabelsValues(obj *metav1.ObjectMeta) ([]string, []string) {
 
 // BuildInfoLabels build the lists of label keys and values from the ObjectMeta Labels.
 func BuildInfoLabels(obj *metav1.ObjectMeta) ([]string, []string) {
-	labelKeys := []string{}
+	keys := make([]string, 0, len(obj.Labels))
 	for key := range obj.Labels {
-		labelKeys = append(labelKeys, sanitizeLabelName(key))
+		keys = append(keys, key)
 	}
-	sort.Strings(labelKeys)
+	sort.Strings(keys)
 
-	labelValues := make([]string, len(obj.Labels))
-	for i, key := range labelKeys {
+	// the value is looked up under the original key; only the exported key is sanitized
+	labelKeys := make([]string, len(keys))
+	labelValues := make([]string, len(keys))
+	for i, key := range keys {
+		labelKeys[i] = sanitizeLabelName(key)
 		labelValues[i] = obj.Labels[key]
 	}
 
